@@ -14,6 +14,7 @@ open IV IV.Proto IV.CleanState
   re    name ic tokens                        define a regex (prefix token stream, see `parseRe`)      → ok
   init  fqdn obf obf6 obfhost obfmac kws pats hostre      new Cleaner                                   → ok
   clean noobf noredact allow line…            one clean_content call                                   → `ok` TAB out-line…
+  cleanw noobf noredact allow line…           the same with width=True                                 → `ok` TAB out-line… | raised
   map                                         mapping() of ip, host, mac, ipv6, keyword                → five list fields
   write hostctx hascleaner noobf noredact allow line…     ContentProvider.write                        → E1 | E2 | S TAB text
   findall name group line  /  search name line  /  subpw line        recogniser checks
@@ -191,6 +192,13 @@ def handle (d : D) (fs : List String) : D × String :=
     | some cfg, some call =>
       let r := cleanContent d.env cfg d.st call
       ({ d with st := r.1 }, "\t".intercalate ("ok" :: r.2.map encStr))
+    | _, _ => (d, "bad-op")
+  | "cleanw" :: noobf :: noredact :: allow :: lines =>
+    match d.cfg, mkCall noobf noredact allow lines with
+    | some cfg, some call =>
+      match cleanContentW d.env cfg d.st call with
+      | (st', some out) => ({ d with st := st' }, "\t".intercalate ("ok" :: out.map encStr))
+      | (st', none) => ({ d with st := st' }, "raised")
     | _, _ => (d, "bad-op")
   | ["map"] =>
     match d.cfg with
